@@ -179,8 +179,10 @@ func (c *Ctx) Violation(signature, what string, witness any) {
 			return
 		}
 	}
+	repeated := false
 	for i := range c.violations {
 		if c.violations[i].Signature == signature {
+			repeated = true
 			c.counters["violations_repeated_signature"]++
 			if c.counters["violations_repeated_signature"] > 50 {
 				return
@@ -189,7 +191,9 @@ func (c *Ctx) Violation(signature, what string, witness any) {
 		}
 	}
 	v := violation{Signature: signature, What: what, Witness: witness}
-	if len(c.violations) < 25 {
+	// every distinct signature gets its replay file and VIOLATION line (up to
+	// 300 signatures); repetitions only among the first 25 violations
+	if (!repeated && len(c.violations) < 300) || len(c.violations) < 25 {
 		dir := filepath.Join(Root(), "replays", c.ID)
 		_ = os.MkdirAll(dir, 0o755)
 		path := filepath.Join(dir, fmt.Sprintf("%s-seed%d-%03d.json", c.Tier, c.Seed, len(c.violations)))
@@ -281,9 +285,13 @@ func (c *Ctx) finish() {
 		cov[k] = v
 	}
 	if len(c.violations) > 0 {
-		vs := c.violations
-		if len(vs) > 10 {
-			vs = vs[:10]
+		var vs []violation
+		seenSig := map[string]bool{}
+		for _, v := range c.violations {
+			if !seenSig[v.Signature] && len(vs) < 60 {
+				seenSig[v.Signature] = true
+				vs = append(vs, v)
+			}
 		}
 		short := make([]map[string]any, 0, len(vs))
 		for _, v := range vs {
